@@ -19,7 +19,10 @@ import (
 // print that very text, whatever the labels and comments contain (blanks, quotes, '%' ...).
 
 type CliCase struct {
-	Trees  []*ref.Node `json:"trees"`
+	// Boundary > 0: the first tip of the first tree gets a long name with a blank in it, placed so
+	// that the blank is byte Boundary-1 of the line (the stream reader works in 4096-byte chunks)
+	Boundary int         `json:"boundary,omitempty"`
+	Trees    []*ref.Node `json:"trees"`
 	InMode string      `json:"in_mode"`
 	ToFile bool        `json:"to_file"`
 }
@@ -29,7 +32,14 @@ func checkCli(c CliCase) error {
 		return fmt.Errorf("harness: gotree binary not built")
 	}
 	var in strings.Builder
-	for _, m := range c.Trees {
+	for i, m := range c.Trees {
+		if i == 0 && c.Boundary > 0 {
+			m = m.Clone()
+			tip := m.TipNodes()[0]
+			if off := strings.Index(ref.Write(m), tip.Name); off >= 0 && off < c.Boundary-2 {
+				tip.Name = strings.Repeat("x", c.Boundary-1-off) + " " + tip.Name
+			}
+		}
 		in.WriteString(ref.Write(m) + "\n")
 	}
 	text := in.String()
@@ -64,9 +74,12 @@ func checkCli(c CliCase) error {
 func TestC01Cli(t *testing.T) {
 	h.Run(t, h.Spec[CliCase]{
 		Property: "C01", Name: "cli", Quick: 1600, Thorough: 32000,
-		Rule: "`gotree reformat newick` (input on stdin, in a file or in a gzip file; output on stdout or with -o over an older, longer file) on the canonical text of 1-3 generated trees of the domain whose text holds no line break: the output must be byte-identical to the input; non-trivial = a comment, an inner name or a support with p-value",
+		Rule: "`gotree reformat newick` (input on stdin, in a file or in a gzip file; output on stdout or with -o over an older, longer file) on the canonical text of 1-3 generated trees of the domain whose text holds no line break, one case in six with a tip name long enough to put one of its blanks at byte 4095 / 8191 / 12287 of the line: the output must be byte-identical to the input; non-trivial = a comment, an inner name or a support with p-value",
 		Gen: func(t *rapid.T, thorough bool) CliCase {
 			c := CliCase{InMode: rapid.SampledFrom(cli.InModes).Draw(t, "inmode"), ToFile: rapid.IntRange(0, 2).Draw(t, "tofile") == 0}
+			if rapid.IntRange(0, 5).Draw(t, "longline") == 3 {
+				c.Boundary = rapid.SampledFrom([]int{4096, 4096, 8192, 12288}).Draw(t, "boundary")
+			}
 			o := opts(false)
 			for i, n := 0, rapid.IntRange(1, 3).Draw(t, "ntrees"); i < n; i++ {
 				m := rapid.Custom(func(t *rapid.T) *ref.Node { return gen.Tree(t, o) }).Filter(func(m *ref.Node) bool {
